@@ -320,6 +320,57 @@ int main(void)
 			else { strcpy(buf, "val="); hex_into(buf + 4, (const uint8_t *) got.txt, got.len); result(buf, "0"); }
 			free(ptxt);
 		}
+		else if ((!strcmp(op, "bset") && drv_nw == 5) || (!strcmp(op, "bget") && drv_nw == 4)) {
+			/* binary length mode path (built with addchar/valid/add) on the global tree ('-') or the private list ('r') */
+			MPT_STRUCT(path) p = MPT_PATH_INIT;
+			char *save = 0, *tok;
+			int ok = 1, isset = op[1] == 's';
+			static char buf[4200];
+			struct got got = { 0, 0 };
+			get_tree(drv_w[2], &kind);
+			if (kind != 0 && kind != 1) { puts("bad-op"); continue; }
+			if (isset && !(vtxt = get_text(drv_w[4], &vlen))) { puts("bad-op"); continue; }
+			p.flags = MPT_PATHFLAG(SepBinary);
+			for (tok = strtok_r(drv_w[3], ",", &save); tok; tok = strtok_r(0, ",", &save)) {
+				char *e = get_text(tok, &plen);
+				size_t i;
+				if (!e || !plen || plen > 255) { ok = 0; free(e); break; }
+				for (i = 0; i < plen; i++) {
+					if (mpt_path_addchar(&p, (uint8_t) e[i]) < 0 || mpt_path_valid(&p) < 0) ok = 0;
+				}
+				if (mpt_path_add(&p, (int) plen) < 0) ok = 0;
+				free(e);
+			}
+			if (!ok) { mpt_path_fini(&p); free(vtxt); puts("bad-op"); continue; }
+			if (isset) {
+				const char *v = vtxt;
+				MPT_STRUCT(value) d = MPT_VALUE_INIT('s', &v);
+				if (kind == 1) {
+					result(mpt_node_assign(&root, &p, &d) ? "ok" : "refused", "node");
+				} else {
+					MPT_INTERFACE(metatype) *gl = mpt_config_global(0);
+					MPT_INTERFACE(config) *gc = 0;
+					if (!gl || MPT_metatype_convert(gl, MPT_ENUM(TypeConfigPtr), &gc) < 0 || !gc) r = MPT_ERROR(BadOperation);
+					else r = gc->_vptr->assign(gc, &p, &d);
+					result(r < 0 ? "refused" : "ok", r < 0 ? drv_errname(r) : "0");
+				}
+			} else {
+				if (kind == 1) {
+					MPT_STRUCT(path) q = p;
+					MPT_STRUCT(node) *n = mpt_node_query(root, &q);
+					if (!n || q.len) r = MPT_ERROR(MissingData);
+					else r = n->_meta ? get_value(&got, (MPT_INTERFACE(convertable) *) n->_meta, 0) : MPT_ERROR(MissingData);
+				} else {
+					r = mpt_config_query(0, &p, get_value, &got);
+				}
+				if (r < 0) result("absent", drv_errname(r));
+				else if (!got.txt) result("val=null", "0");
+				else if (got.len > 2000) result("val=?long", "0");
+				else { strcpy(buf, "val="); hex_into(buf + 4, (const uint8_t *) got.txt, got.len); result(buf, "0"); }
+			}
+			mpt_path_fini(&p);
+			free(vtxt);
+		}
 		else if (!strcmp(op, "view") && drv_nw == 4) {
 			MPT_STRUCT(path) p = MPT_PATH_INIT;
 			ptxt = get_text(drv_w[2], &plen);
